@@ -49,9 +49,10 @@ class Event:
         """Register to notify for events of given type to be sent to queue."""
 
         if event_type not in cls.notify:
-            cls.notify[event_type] = set()
             _LOGGER.debug("event.notify_add(%s) -> adding event listener", event_type)
+            # (the entry is made once the listener exists: a refused registration leaves nothing behind)
             cls.notify_remove[event_type] = cls.hass.bus.async_listen(event_type, cls.event_listener)
+            cls.notify[event_type] = set()
         cls.notify[event_type].add(queue)
 
     @classmethod
